@@ -28,9 +28,9 @@ RULE = (
     "eps/mu (isotropic or diagonal) for the energy density, a random box (any face contact; for plane detectors a "
     "slab of thickness 1, or thicker with fixed_propagation_axis), exact_interpolation True/False, component subsets, "
     "1..2 frequencies, both phasor scaling modes. Each case places the whole tuple of detectors that differ in one "
-    "option on that box and calls update_detector_states (jit) per step. Non-trivial = non-uniform grid or a region "
-    "with more than one cell along every reduced axis (so that weights and the reduction actually matter), and "
-    "non-zero records. Distinct = sha1 of the case JSON."
+    "option on that box and calls update_detector_states (jit) per step. Non-trivial = the region has more than one "
+    "cell (for the closed surface: extent > 1 on at least two axes), so that the reduction and its weights matter, "
+    "and the records are non-zero; the class histogram separates uniform from stretched grids. Distinct = sha1 of the case JSON."
 )
 ASSUMPTIONS = [
     "weights: cell volume = wx*wy*wz and face area normal to a = product of the two transverse widths, widths = "
@@ -72,6 +72,20 @@ def _scene(draw, lo_n=4, hi_n=8, steps=4):
     if mu is not None:
         bg["mu"] = mu
     return {"shape": n, "steps": steps, "courant": 0.99, "grid": grid, "faces": faces, "background": bg}
+
+
+@st.composite
+def _box(draw, n, min_big=2):
+    """Random box with any face contact; at least `min_big` axes are longer than one cell (so that reductions and
+    their weights matter in the bulk of the cases)."""
+    big = set(draw(st.permutations([0, 1, 2]))[:draw(st.integers(min_big, 3))])
+    lo, hi = [], []
+    for a in range(3):
+        size = draw(st.integers(2, n[a])) if a in big else draw(st.integers(1, n[a]))
+        start = draw(st.sampled_from([0, n[a] - size, draw(st.integers(0, n[a] - size))]))
+        lo.append(start)
+        hi.append(start + size)
+    return lo, hi
 
 
 def _fields(seed, shape, lane, k):
@@ -120,7 +134,7 @@ def _classify_scene(ctx, spec, lo, hi, exact):
 @st.composite
 def volume_cases(draw, ctx):
     spec = draw(_scene())
-    lo, hi = draw(scenes.box_strategy(spec["shape"]))
+    lo, hi = draw(_box(spec["shape"]))
     comps = draw(st.sampled_from([list(od.COMPS), ["Ex", "Hz"], ["Ey", "Hx", "Hy"], ["Ez"], ["Ex", "Ey", "Ez", "Hy"]]))
     return {
         "scene": spec, "lo": lo, "hi": hi, "exact": draw(st.booleans()), "components": comps,
@@ -157,7 +171,8 @@ def volume_body(ctx, case):
             fdtdx.PhasorDetector(name="pi_red", reduce_volume=True, inverse=True, **pk),
         ]
         if case["closed_inverse"]:
-            ck = dict(wave_characters=_wcs(case["periods"], dt), dtype=cdt, scaling_mode=case["scaling"], **kw)
+            ck = dict(wave_characters=_wcs(case["periods"], dt), dtype=cdt, scaling_mode=case["scaling"],
+                      exact_interpolation=case["exact"])  # (plot is not an init argument of this class)
             objs += [fdtdx.ClosedSurfacePhasorPoyntingFluxDetector(name="c_fwd", **ck),
                      fdtdx.ClosedSurfacePhasorPoyntingFluxDetector(name="c_inv", inverse=True, **ck)]
         return objs, [put(o, lo, hi) for o in objs]
@@ -227,7 +242,7 @@ def volume_body(ctx, case):
             ctx.close(S2["c_inv"][key], np.zeros_like(v), scale=max(float(np.abs(v).max()), 1e-300), tol=tol,
                       metric="inverse_err",
                       msg=f"closed-surface phasor detector: inverse update after forward does not cancel ({key})")
-    ctx.nontrivial(nonzero and np.prod(ext) > 1 and (spec["grid"]["kind"] == "rect" or min(ext) > 1))
+    ctx.nontrivial(nonzero and np.prod(ext) > 1)
 
 
 # =====================================================================================================================
@@ -237,7 +252,7 @@ def volume_body(ctx, case):
 def plane_cases(draw, ctx):
     spec = draw(_scene())
     n = spec["shape"]
-    lo, hi = draw(scenes.box_strategy(n))
+    lo, hi = draw(_box(n, 3))
     axis = draw(st.integers(0, 2))
     thick = draw(st.integers(0, 3)) == 0
     if not thick:
@@ -337,7 +352,7 @@ def plane_body(ctx, case):
                   msg="phasor flux: scalar != propagation component of keep_all_components")
         ctx.close(flux["ph_m_all"], -flux["ph_p_all"], scale=pscale, tol=ptol, metric="negation_err",
                   msg="phasor flux (all components): direction '-' != -(direction '+')")
-    ctx.nontrivial(fscale > 1e-200 and np.prod(ext) > 1 and (spec["grid"]["kind"] == "rect" or ext[axis] > 1))
+    ctx.nontrivial(fscale > 1e-200 and np.prod(ext) > 1)
 
 
 # =====================================================================================================================
@@ -347,7 +362,7 @@ def plane_body(ctx, case):
 def closed_cases(draw, ctx):
     spec = draw(_scene())
     n = spec["shape"]
-    lo, hi = draw(scenes.box_strategy(n))
+    lo, hi = draw(_box(n, 3))
     if draw(st.integers(0, 3)) == 0:  # quasi-2D box
         a = draw(st.integers(0, 2))
         hi[a] = lo[a] + 1
